@@ -156,7 +156,7 @@ def gen_state(desc: dict, dims: List[int], level: int, kinds: List[str]):
     rng = np.random.default_rng(int(desc.get("seed", 0)) + 7919 * len(dims))
     D = int(np.prod(dims))
     cls = desc.get("cls", "pure")
-    if cls == "mixed" and level < 2:
+    if cls in ("mixed", "nearlypure") and level < 2:
         cls = "pure"
 
     def local_pure(d, kind):
@@ -200,6 +200,14 @@ def gen_state(desc: dict, dims: List[int], level: int, kinds: List[str]):
                 t[tuple(sl)] = 0
         v = t.reshape(-1)
         v = v / np.linalg.norm(v)
+    elif cls == "nearlypure":
+        # (1-eps)|psi><psi| + eps*sigma with eps log-uniform in [1e-8, 1e-4]: straddles the library's
+        # documented purity tolerance (1e-6) for automatic contraction
+        psi = ref.rand_pure(rng, D)
+        eps = 10.0 ** (-8.0 + 4.0 * float(rng.random()))
+        sigma = ref.rand_mixed(rng, D, min(D, 3))
+        rho = (1 - eps) * np.outer(psi, psi.conj()) + eps * sigma
+        return "matrix", rho / np.trace(rho).real
     elif cls == "mixed":
         rank = int(desc.get("rank", 0)) or int(rng.integers(2, max(3, min(D, 4) + 1)))
         rho = ref.rand_mixed(rng, D, rank)
